@@ -190,7 +190,19 @@ func checkC20Parse(c *Ctx, n int) {
 		if given && (word == "" || seen[word] || strings.HasPrefix(word, "-") || strings.Contains(word, "%")) {
 			continue
 		}
+		// (a fifth of the words that are given stand behind the terminator — also a word that IS a visible name:
+		// it selects nothing there, and it is its own nearest name)
+		behindTerminator := given && r.Intn(5) == 0
+		if behindTerminator {
+			cs.Opts |= flags.PassDoubleDash
+			if r.Intn(2) == 0 && len(visible) > 0 {
+				word = visible[r.Intn(len(visible))]
+			}
+		}
 		argv := append([]string{}, path...)
+		if behindTerminator {
+			argv = append(argv, "--")
+		}
 		if given {
 			argv = append(argv, word)
 		}
